@@ -212,7 +212,21 @@ func (g *fnGen) callSiteKey(cc *ssa.CallCommon) (text string, ord int) {
 
 func (g *fnGen) doCallWithArgs(st *state, cc *ssa.CallCommon, instr ssa.Instruction, resV ssa.Value, ca *callArgs) {
 	if b, ok := cc.Value.(*ssa.Builtin); ok {
+		// built-ins (len, append, copy, ...) are call sites for hooks too
+		btext, bord := g.callSiteKey(cc)
+		bnames := map[string]binding{}
+		for i, a := range ca.args {
+			bnames[fmt.Sprintf("$%d", i)] = binding{a, ca.argTs[i]}
+		}
+		g.runHooks(st, "at", btext, bord, bnames, instr)
 		g.doBuiltin(st, b, cc, instr, resV, ca)
+		if resV != nil {
+			if t, ok := g.vals[resV]; ok {
+				bnames["$ret"] = binding{t, resV.Type()}
+				bnames["$ret0"] = bnames["$ret"]
+			}
+		}
+		g.runHooks(st, "after", btext, bord, bnames, instr)
 		return
 	}
 	ct, calleeName, calleePkg, sig := g.contractFor(cc)
